@@ -57,7 +57,7 @@ type Prop struct {
 
 var registry = map[string]*Prop{}
 
-func Register(p *Prop) { registry[p.ID] = p }
+func Register(p *Prop)    { registry[p.ID] = p }
 func Get(id string) *Prop { return registry[id] }
 func IDs() []string {
 	var s []string
